@@ -53,6 +53,12 @@ func bdApplyWrite(sb *redact.StringBuilder, o bdOp) {
 		sb.Print(o.P, 7)
 	case "PR":
 		sb.Print(redact.RedactableString(o.P))
+	case "FX":
+		// a foreign call: something else in the process prints (and escapes) in between; not a write to this builder
+		_ = redact.Sprint("foreign\ntext \u2039 "+o.P, 1)
+		var other redact.StringBuilder
+		other.UnsafeString(strings.Repeat("f", 300) + "\n" + o.P)
+		_ = other.RedactableString()
 	}
 }
 
@@ -129,12 +135,16 @@ func judgeBuilder(rep *lib.Report, k bdCase) {
 			r := sb.TakeRedactableBytes()
 			kept = append(kept, taken{redact.RedactableString(string(r)), string(r)})
 			since = nil
+		case "FX":
+			bdApplyWrite(&sb, o)
 		case "RS":
-			_ = sb.RedactableString()
+			r := sb.RedactableString()
+			kept = append(kept, taken{r, string(append([]byte(nil), r...))}) // a string obtained earlier is never modified by later writes
 		case "RB":
 			_ = sb.RedactableBytes()
 		case "STR":
-			_ = sb.String()
+			r := sb.String()
+			kept = append(kept, taken{redact.RedactableString(r), string(append([]byte(nil), r...))})
 		case "LEN":
 			_ = sb.Len()
 		}
@@ -152,7 +162,7 @@ func judgeBuilder(rep *lib.Report, k bdCase) {
 			bdApplyWrite(&fresh, w)
 		}
 		want := fresh.RedactableString()
-		if (rep.Property == "C01" || rep.Property == "C03") && !usesRaw(k.Ops) {
+		if (rep.Property == "C01" || rep.Property == "C03" || rep.Property == "C09" || rep.Property == "C10" || rep.Property == "C12") && !usesRaw(k.Ops) {
 			// the same histories under C01 / C03: whatever was observed in between, what the builder shows is a
 			// well-formed redactable no envelope of which spans a line feed
 			if !lib.WellFormed([]byte(got)) {
@@ -299,6 +309,22 @@ func builderDrive(args []string) {
 				ops2 := append([]bdOp(nil), pre...)
 				ops2 = append(ops2, bdOp{kind, strings.Repeat("a", l) + "\xe2\x80"}, bdOp{kind, "\xbaz"})
 				twins = append(twins, bdCase{"builder", ops2})
+			}
+		}
+	}
+	// a short payload that still has to be escaped, then a large write in the same mode (no mode switch in between);
+	// a large builder observed, then a foreign call, then more writes
+	big := strings.Repeat("b", 300)
+	for _, kind := range []string{"U", "S"} {
+		for _, small := range []string{"\u2039x", "y\u203a", "z\n", "\xe2\x80"} {
+			for _, acc := range []string{"", "LEN", "RS", "STR"} {
+				ops := []bdOp{{kind, small}}
+				if acc != "" {
+					ops = append(ops, bdOp{acc, ""})
+				}
+				ops = append(ops, bdOp{kind, big}, bdOp{kind, small})
+				twins = append(twins, bdCase{"builder", ops})
+				twins = append(twins, bdCase{"builder", []bdOp{{kind, big + small}, {acc, ""}, {"FX", small}, {kind, "tail" + small}, {"FX", "q"}, {"RS", ""}}})
 			}
 		}
 	}
